@@ -189,9 +189,7 @@ func (p *Program) sense(f *ssa.Function) *funcSense {
 						continue
 					}
 
-					if phi, ok := stripIface(*op).(*ssa.Phi); ok {
-						mark(phi, 0)
-					}
+					mark(*op, 0)
 				}
 			}
 		}
@@ -428,6 +426,42 @@ func cmpAtom(op token.Token, x, y ssa.Value) (key string, neg bool, decided *boo
 		r := false
 
 		return key, neg, &r, bx, by
+	case okx != oky && isIntType(x.Type()):
+		// one constant side: decide by the lower bound of the other side
+		var (
+			c     *ssa.Const
+			other ssa.Value
+			cLeft bool
+		)
+
+		if okx {
+			c, other, cLeft = cx, y, true
+		} else {
+			c, other = cy, x
+		}
+
+		if c.Value != nil && c.Value.Kind() == constant.Int {
+			if cv, ok := constant.Int64Val(c.Value); ok {
+				if lb := lowerBound(other); lb != lbNegInf {
+					switch {
+					case op == token.EQL && lb > cv:
+						r := false
+
+						return key, neg, &r, bx, by
+					case op == token.LSS && !cLeft && lb >= cv: // other < c is false
+						r := false
+
+						return key, neg, &r, bx, by
+					case op == token.LSS && cLeft && lb > cv: // c < other is true
+						r := true
+
+						return key, neg, &r, bx, by
+					}
+				}
+			}
+		}
+
+		return key, neg, nil, bx, by
 	case op == token.EQL && x == y && !okx:
 		// (floating point NaN aside; comparisons of one SSA value with itself do not occur in this tree)
 		return key, neg, nil, bx, by
@@ -588,6 +622,10 @@ func (e *pathEnv) resolve(v ssa.Value, depth int) ssa.Value {
 		nx, ny := e.resolve(x.X, depth+1), e.resolve(x.Y, depth+1)
 		if nx == x.X && ny == x.Y {
 			return v
+		}
+
+		if _, neg, decided, _, _ := cmpAtom(x.Op, nx, ny); decided != nil {
+			return ssa.NewConst(constant.MakeBool(*decided != neg), types.Typ[types.Bool])
 		}
 
 		k := fmt.Sprintf("%p|%s|%s", x, valueID(nx), valueID(ny))
@@ -897,14 +935,24 @@ func nilTest(cond ssa.Value) (v ssa.Value, nilWhenTrue bool, ok bool) {
 // NilEdgeOf selects the If edges on which value v (an error result) is known to be nil.
 func NilEdgeOf(v ssa.Value) EdgePred {
 	return func(e EdgeInfo) bool {
-		t, nilWhenTrue, ok := nilTest(e.Cond)
-		if !ok || e.Taken != nilWhenTrue {
-			return false
+		for _, cond := range []ssa.Value{e.Cond, e.RawCond} {
+			if cond == nil {
+				continue
+			}
+
+			t, nilWhenTrue, ok := nilTest(cond)
+			if !ok || e.Taken != nilWhenTrue {
+				continue
+			}
+
+			t = stripIface(t)
+
+			if t == v || Fwd(t) == v {
+				return true
+			}
 		}
 
-		t = stripIface(t)
-
-		return t == v || Fwd(t) == v
+		return false
 	}
 }
 
@@ -1180,6 +1228,16 @@ func (e *pathEnv) withResolved(in ssa.Instruction, fn func(ssa.Instruction) bool
 				*op = b
 				changed = true
 			}
+
+			continue
+		}
+
+		// a comparison of joined values (`return idx >= 0`)
+		if bo, ok := (*op).(*ssa.BinOp); ok && isCmp(bo.Op) {
+			if r := e.resolve(bo, 0); r != ssa.Value(bo) {
+				*op = r
+				changed = true
+			}
 		}
 	}
 
@@ -1194,4 +1252,115 @@ func (e *pathEnv) withResolved(in ssa.Instruction, fn func(ssa.Instruction) bool
 	}()
 
 	return fn(in)
+}
+
+// ---------- integer lower bounds (sentinel indexes) ----------
+
+const lbNegInf = int64(-1) << 62
+
+// lowerBound computes a sound lower bound of an integer value from constants, len/cap, additions of
+// constants and phis (loop indexes start from a constant and are incremented): enough to know that
+// an index found by a search loop is not the -1 sentinel.
+func lowerBound(v ssa.Value) int64 {
+	memo := map[ssa.Value]int64{}
+
+	var eval func(v ssa.Value, depth int) int64
+
+	eval = func(v ssa.Value, depth int) int64 {
+		if depth > 12 {
+			return lbNegInf
+		}
+
+		if b, ok := memo[v]; ok {
+			return b
+		}
+
+		switch x := v.(type) {
+		case *ssa.Const:
+			if x.Value != nil && x.Value.Kind() == constant.Int {
+				if i, ok := constant.Int64Val(x.Value); ok {
+					return i
+				}
+			}
+
+			return lbNegInf
+		case *ssa.Call:
+			if b, ok := x.Call.Value.(*ssa.Builtin); ok && (b.Name() == "len" || b.Name() == "cap") {
+				return 0
+			}
+
+			return lbNegInf
+		case *ssa.Convert:
+			if isIntType(x.X.Type()) && isIntType(x.Type()) {
+				return eval(x.X, depth+1)
+			}
+
+			return lbNegInf
+		case *ssa.BinOp:
+			switch x.Op {
+			case token.ADD:
+				a, b := eval(x.X, depth+1), eval(x.Y, depth+1)
+				if a == lbNegInf || b == lbNegInf {
+					return lbNegInf
+				}
+
+				return a + b
+			case token.SUB:
+				if c, ok := x.Y.(*ssa.Const); ok && c.Value != nil && c.Value.Kind() == constant.Int {
+					if i, ok := constant.Int64Val(c.Value); ok {
+						if a := eval(x.X, depth+1); a != lbNegInf {
+							return a - i
+						}
+					}
+				}
+			}
+
+			return lbNegInf
+		case *ssa.Phi:
+			// optimistic fixpoint: cyclic edges start at +inf, then iterate; a bound that keeps
+			// falling is abandoned
+			memo[v] = int64(1) << 62
+
+			var res int64
+
+			for round := 0; round < 4; round++ {
+				res = int64(1) << 62
+
+				for _, e := range x.Edges {
+					saved := memo[v]
+					b := eval(e, depth+1)
+					memo[v] = saved
+
+					if b < res {
+						res = b
+					}
+				}
+
+				if res == memo[v] {
+					break
+				}
+
+				if round == 3 {
+					res = lbNegInf
+				}
+
+				memo[v] = res
+
+				// values computed from the previous assumption are stale
+				for k := range memo {
+					if k != v {
+						delete(memo, k)
+					}
+				}
+			}
+
+			memo[v] = res
+
+			return res
+		}
+
+		return lbNegInf
+	}
+
+	return eval(v, 0)
 }
